@@ -28,6 +28,8 @@ fn dispatch(req: &Value) -> Value {
         "cfmt_split" => fmtops::cfmt_split(req),
         "cfmt_cell" => fmtops::cfmt_cell(req),
         "fmt_cell" => fmtops::fmt_cell(req),
+        "repr" => fmtops::repr(req),
+        "const_parse" => fmtops::const_parse(req),
         "args_conv" => astops::args_conv(req),
         "lex" => syn::lex(req),
         "locate_tree" => syn::locate_tree(req),
